@@ -239,8 +239,8 @@ class Source(tuple, metaclass=abc.ABCMeta):
             return super().__getitem__(name)
         except (TypeError, IndexError) as err:
             name = self.schema[name].name
-            for field, feature in zip(self.schema, self.features):
-                if name == field.name:
+            for feature in self.features:  # not zipping with the schema, which collapses the equally named features
+                if name == getattr(feature, 'name', None):
                     return feature
             raise RuntimeError(f'Inconsistent {name} lookup vs schema iteration') from err
 
